@@ -6,6 +6,47 @@ import os
 
 HERE = os.path.dirname(os.path.dirname(os.path.abspath(__file__)))
 
+# technique texts after the round-2 strengthening (override the table below)
+TECHNIQUE_NOW = {
+    "C03": "systematic mistake snippets (alone, and below a first line that has "
+           "errors of its own) + Hypothesis program assembly with injected "
+           "mistakes; metamorphic oracle over source edits (disable comments)",
+    "C04": "deterministic snippet batch + Hypothesis batches of programs "
+           "analysed in worker processes under varied PYTHONHASHSEED / history / "
+           "loader reuse / injected (frozen) wall-clock values; byte-equality "
+           "oracle over stub text, report, pickled and gzip-compressed stubs",
+    "C06": "Hypothesis and fixed upstream programs + mechanically derived "
+           "downstream module, three import configurations; structural "
+           "type-equality oracle (generic members: PEP 484 substitution "
+           "computed from the stub)",
+    "C07": "bounded-exhaustive typegraph enumeration (incl. graphs extended "
+           "after a first round of queries) + Hypothesis graph generation "
+           "against an independent path-enumeration reference model",
+    "C08": "Hypothesis rule-based state machine (model = replica rebuilt from "
+           "the mutation log at every query) + bounded-exhaustive history "
+           "families (query order; condition set / cleared, further source "
+           "set, new edge between full query rounds) against single-query "
+           "Programs built from scratch",
+    "C10": "bounded-exhaustive + Hypothesis hierarchy generation (with "
+           "post-creation class attribute assignments), differential against "
+           "CPython's type() / setattr (class creation and attribute lookup)",
+    "C12": "Hypothesis stub generation (also as package __init__) + corpus of "
+           "bundled stubs + alias-import stubs serialised in sequence; "
+           "serialise/decode round trip with byte comparison; pairwise eq/hash "
+           "law over generated type nodes and across the serialised original, "
+           "decoded and reference trees",
+    "C16": "Hypothesis program generation + token mutation + systematic small "
+           "try statements + stdlib corpus, structural invariants on every "
+           "OrderedCode",
+    "C17": "exhaustive enumeration of constructor calls and simplify(table) "
+           "calls (fresh tables and one table refilled in place) with truth "
+           "tables from an independent evaluator",
+    "C19": "bounded-exhaustive project enumeration (2-3 modules x kinds, "
+           "unusual names, all DAGs on 4-5 modules) + Hypothesis project "
+           "generation; independent build.ninja parser, dependency-closure "
+           "oracle and simulated execution of all/many topological schedules",
+}
+
 # id -> (technique, level text, level_note)
 CHECKS = {
     "C09": (
@@ -221,6 +262,7 @@ def main():
     have = glob.glob(os.path.join(HERE, "props", pid.lower() + "_*.py"))
     if pid in CHECKS and have:
       tech, text, note = CHECKS[pid]
+      tech = TECHNIQUE_NOW.get(pid, tech)
       checks.append({
           "property_id": pid,
           "quick_cmd": "./check %s --tier quick" % pid,
